@@ -76,9 +76,9 @@ def run(ctx):
             f.write(rp.get("case", "") + "\n")
         args += ["--replay-cases", cf]
     elif quick:
-        args += ["--nevents", "12000", "--ncli", "110", "--nwide", "8"]
+        args += ["--nevents", "12000", "--ncli", "90", "--nwide", "8", "--ndir", "9", "--nhist", "24"]
     else:
-        args += ["--nevents", "200000", "--ncli", "500", "--nwide", "40"]
+        args += ["--nevents", "200000", "--ncli", "450", "--nwide", "40", "--ndir", "45", "--nhist", "96"]
     p = vlib.run(args, timeout=3300)
     dist = {}
     for line in p.stdout.split("\n"):
@@ -92,10 +92,11 @@ def run(ctx):
     if not (len(cases) == len(impl) == len(model)):
         raise vlib.CheckFailure("line count mismatch cases=%d impl=%d model=%d" % (len(cases), len(impl), len(model)))
 
-    kinds = {"E": 0, "C": 0}
+    kinds = {"E": 0, "C": 0, "I": 0, "H": 0}
     outcomes = {}
     stats = {"decoder_agrees_with_model": 0, "cli_roundtrip_ok": 0, "cli_export_fails_as_expected": 0,
-             "cli_toml_float_rounded": 0, "cli_toml_rejects_unrepresentable": 0, "cli_invocations": 0, "cli_inconclusive_timeout": 0}
+             "cli_toml_float_rounded": 0, "cli_toml_rejects_unrepresentable": 0, "cli_invocations": 0, "cli_inconclusive_timeout": 0,
+             "import_dir_ok": 0, "import_dir_files": 0, "force_history_ok": 0}
     known = {}
     distinct = set()
     nontrivial = 0
@@ -170,7 +171,44 @@ def run(ctx):
                           "does not reproduce the data" % (cw["fmt"], cw["mode"], ", -e" if cw.get("expr") == "1" else ""))
             if len(samples) < 6 and kinds["C"] % 41 == 3:
                 samples.append({"case": c[:300], "impl": i[:300]})
-    if stats["cli_inconclusive_timeout"] * 4 > max(1, kinds.get("C", 0)):
+        elif k == "I":
+            cw, iw = kv(c), kv(i)
+            if new:
+                nontrivial += 1
+            if "rc98" in i or iw.get("prepare") == "rc98" or iw.get("import") == "rc98":
+                stats["cli_inconclusive_timeout"] += 1
+                continue
+            if "prepare" in iw:
+                violation("cli-export-fails", c, i, m, "cue export of concrete data into the directory failed")
+                continue
+            n = int(iw["n"])
+            stats["cli_invocations"] += 1 + 2 * n
+            if iw["import"] == "rc0" and iw.get("made") == str(n) and iw.get("same") == str(n):
+                stats["import_dir_ok"] += 1
+                stats["import_dir_files"] += n
+            else:
+                violation("import-by-directory-skips-or-changes-files", c, i, m,
+                          "cue import of a directory (form=%s: ./data | ./data/... | no argument inside it) holding one exported file per "
+                          "encoding must produce a .cue file for every data file, each exporting the file's data; missing=%s differ=%s" % (
+                              cw.get("form"), iw.get("missing", "-"), iw.get("diff", "-")))
+        elif k == "H":
+            cw, iw = kv(c), kv(i)
+            if new:
+                nontrivial += 1
+            if "rc98" in i:
+                stats["cli_inconclusive_timeout"] += 1
+                continue
+            stats["cli_invocations"] += 4
+            ok = (iw.get("first") == "rc0" and iw.get("noforce", "rc0") != "rc0" and iw.get("kept") == "1"
+                  and iw.get("force") == "rc0" and iw.get("read") == "rc0" and iw.get("same") == "1")
+            if ok:
+                stats["force_history_ok"] += 1
+            else:
+                violation("export-over-existing-file", c, i, m,
+                          "history on one output file (%s, %s): export A; export B without --force must fail and leave the file as it is; "
+                          "export B with --force must succeed and the file read back must be exactly B's data "
+                          "(lenA=%s lenB=%s)" % (cw.get("fmt"), cw.get("mode"), iw.get("lenA"), iw.get("lenB")))
+    if stats["cli_inconclusive_timeout"] * 4 > max(1, kinds.get("C", 0) + kinds.get("I", 0) + kinds.get("H", 0)):
         raise vlib.CheckFailure("%d of %d CLI cases were killed by the time limit: the CLI loop was not run" % (
             stats["cli_inconclusive_timeout"], kinds.get("C", 0)))
     for key in sorted(known):
@@ -191,7 +229,10 @@ def run(ctx):
                 "with random key quoting / spacing / comments, decoded by toml.NewDecoder and evaluated; outcome (sorted data, error class, panic) must equal the model's. "
                 "C: cue export of generated data to json/yaml/toml/cue through stdout, --out+--outfile, -o FILE, package argument, with and without -e; "
                 "exit status as predicted; cue export FILE --out json and cue import + cue export must give the data back (key order for json/yaml/cue). "
-                "non-trivial: E with >= 3 events, every C; counted over distinct case lines",
+                "I: one exported file per encoding (json, yaml, yml, toml) in one directory, cue import ./data | ./data/... | (no argument); every file must "
+                "get its .cue and each .cue must export the file's data. H: export A -o F; export B -o F (must fail, F intact); export B --force -o F; "
+                "F read back == B, for B shorter / longer / as long as A, every --out encoding, -o and --out+--outfile. "
+                "non-trivial: E with >= 3 events, every C, I, H; counted over distinct case lines",
         "samples": samples,
         "case_kinds": kinds,
         "decoder_outcomes": outcomes,
